@@ -43,12 +43,14 @@ def ty(node):
     return {"k": "other", "src": ast.dump(node)[:80]}
 
 
-def names_in(node):
+def names_in(node, strings_are_annotations=True):
+    """Names an expression refers to. String constants inside ANNOTATIONS are forward references and are parsed too;
+    in values (enum members such as "H-T-T-P-STATUS", aliases, defaults) a string is just a string."""
     out = []
     for n in ast.walk(node):
         if isinstance(n, ast.Name):
             out.append(n.id)
-        elif isinstance(n, ast.Constant) and isinstance(n.value, str):
+        elif strings_are_annotations and isinstance(n, ast.Constant) and isinstance(n.value, str):
             try:
                 sub = ast.parse(n.value, mode="eval")
                 out.extend(names_in(sub))
@@ -141,7 +143,7 @@ def analyze(src, do_exec=True):
                          "value": ty(st.value) if st.value is not None else None, "value_src": value_src(src, st.value) if st.value is not None else None}
                     used.extend(names_in(st.annotation))
                     if st.value is not None:
-                        used.extend(names_in(st.value))
+                        used.extend(names_in(st.value, False))
                     # Field(alias=..., default=...)
                     if isinstance(st.value, ast.Call) and isinstance(st.value.func, ast.Name) and st.value.func.id == "Field":
                         kw = {}
@@ -157,7 +159,7 @@ def analyze(src, do_exec=True):
                     m = {"name": st.targets[0].id, "line": st.lineno, "value_src": value_src(src, st.value)}
                     if isinstance(st.value, ast.Constant):
                         m["const"] = st.value.value
-                    used.extend(names_in(st.value))
+                    used.extend(names_in(st.value, False))
                     c["members"].append(m)
                 elif isinstance(st, ast.Pass):
                     c["has_pass"] = True
